@@ -395,7 +395,14 @@ func CalleeOf(c *ssa.CallCommon) *ssa.Function {
 
 // CalleeFullName names the callee of a call: "(*pkg/path.T).M", "pkg/path.F", or for interface
 // calls "(pkg/path.I).M"; "" for calls of function values.
+//
+// The module path prefix "github.com/spikeekips/mitum/" is stripped: "(*isaac.ProposalProcessors).Save",
+// "(isaac.BlockWriter).Save", "isaac/block.ImportBlocks", "github.com/pkg/errors.Is".
 func CalleeFullName(c *ssa.CallCommon) string {
+	return strings.ReplaceAll(calleeFullName(c), modPath+"/", "")
+}
+
+func calleeFullName(c *ssa.CallCommon) string {
 	if c.IsInvoke() {
 		return c.Method.FullName()
 	}
